@@ -35,6 +35,11 @@ pub const HOSTS: &[(&str, &str, &str)] = &[
     ("ci-builder: (?-i:E)(?=)", "(?-i:", ")(?=)"),
     ("ci-builder: (?=)(?-i:[a-z]{0}E[0-9]{0})", "(?=)(?-i:[a-z]{0}", "[0-9]{0})"),
     ("ci-builder: (?-i:E)", "(?-i:", ")"),
+    // E as the second capture group of one delegated run (the group's span is compared, too)
+    ("(\\d{0})(E)(?=)", "(\\d{0})(", ")(?=)"),
+    // case-insensitive hosts, only for strings without any cased character (where it cannot matter)
+    ("(?i:E(?<=E))", "(?i:", ")"), // filled specially
+    ("(?i)(?<![\\s\\S]{99})E", "(?i)(?<![\\s\\S]{99})", ""),
 ];
 
 const X_HOST: usize = 11;
@@ -47,6 +52,7 @@ fn host_pattern(host: usize, e: &str) -> String {
     match HOSTS[host].0 {
         "(?=E)E*" => format!("(?={}){}", e, e),
         "E(?<=E)" => format!("{}(?<={})", e, e),
+        "(?i:E(?<=E))" => format!("(?i:{}(?<={}))", e, e),
         _ => format!("{}{}{}", HOSTS[host].1, e, HOSTS[host].2),
     }
 }
@@ -115,6 +121,9 @@ pub fn check_string(s: &str, hosts: &[usize]) -> Result<Info, (usize, String, Fa
         if h == X_HOST && s.chars().any(|c| c.is_whitespace()) {
             continue;
         }
+        if HOSTS[h].0.starts_with("(?i") && (s.to_lowercase() != s || s.to_uppercase() != s) {
+            continue;
+        }
         let pat = host_pattern(h, &e);
         let built = if HOSTS[h].0.starts_with("ci-builder") {
             engine::build_with(&pat, |b| {
@@ -133,6 +142,13 @@ pub fn check_string(s: &str, hosts: &[usize]) -> Result<Info, (usize, String, Fa
             let got = engine::find_from_pos(&re, t, 0);
             if got != engine::Out::Val(want) {
                 return Err((h, t.clone(), Fail::new("find", format!("{:?} (str::find)", want), format!("{} with pattern {:?}", got.show(), pat))));
+            }
+            if HOSTS[h].0 == "(\\d{0})(E)(?=)" {
+                let c = engine::captures_from_pos(&re, t, 0);
+                let wantc = want.map(|w| vec![Some(w), Some((w.0, w.0)), Some(w)]);
+                if c != engine::Out::Val(wantc.clone()) {
+                    return Err((h, t.clone(), Fail::new("captures", format!("{:?}", wantc), format!("{} with pattern {:?}", c.show(), pat))));
+                }
             }
             if HOSTS[h].0 == "(E)" {
                 let c = engine::captures_from_pos(&re, t, 0);
@@ -238,7 +254,7 @@ fn violation(s: &str, hosts: &[usize], f: Fail) -> Violation {
 
 pub fn run(ctx: &RunCtx) -> Outcome {
     let mut o = Outcome::default();
-    o.rule = format!("strings: every string of length <= L over {} characters (all regex meta-characters, - & ~ # space newline tab , : < > = ! ', the letters that form escapes after a backslash, digits, é € 😀) exhaustively, plus proptest strings of length 4..12; each escaped and embedded in {} host patterns (bare, (?=)E, (?:E), (?>E), (E), (?=E)E, E(?<=E), (?-i:E), (?:E|(?!)), two hosts that put E into one delegated piece together with empty-matching class repeats, (?x:E) for whitespace-free strings, and three hosts built with RegexBuilder::case_insensitive(true) around (?-i:E)) that cannot change what E matches; pair stage: every ordered pair of non-empty strings of length <= 2 (thorough: first <= 3) over the characters . + ( | \\ $ # - space a b é ! as the two alternatives of (?<=E1|E2)!, (?<!E1|E2)! and (?:E1|E2)(?=!), expected spans computed with str methods. Oracle: the host compiles; on texts built from the string (itself, embedded after a multi-byte prefix, doubled, near misses with one character changed or dropped, a case-swapped occurrence in front) find == str::find; escape borrows iff nothing needed escaping and only inserts backslashes before special characters. Non-trivial = the string has a meta-character and occurs at an offset > 0. Distinct = distinct (string, host, text).", ALPHA.len(), HOSTS.len());
+    o.rule = format!("strings: every string of length <= L over {} characters (all regex meta-characters, - & ~ # space newline tab , : < > = ! ', the letters that form escapes after a backslash, digits, é € 😀) exhaustively, plus proptest strings of length 4..12; each escaped and embedded in {} host patterns (bare, (?=)E, (?:E), (?>E), (E), (?=E)E, E(?<=E), (?-i:E), (?:E|(?!)), two hosts that put E into one delegated piece together with empty-matching class repeats, (?x:E) for whitespace-free strings, three hosts built with RegexBuilder::case_insensitive(true) around (?-i:E), E as the second group of a delegated run with its span compared, and two (?i) hosts for strings without cased characters) that cannot change what E matches; pair stage: every ordered pair of non-empty strings of length <= 2 (thorough: first <= 3) over the characters . + ( | \\ $ # - space a b é ! as the two alternatives of (?<=E1|E2)!, (?<!E1|E2)! and (?:E1|E2)(?=!), expected spans computed with str methods. Oracle: the host compiles; on texts built from the string (itself, embedded after a multi-byte prefix, doubled, near misses with one character changed or dropped, a case-swapped occurrence in front) find == str::find; escape borrows iff nothing needed escaping and only inserts backslashes before special characters. Non-trivial = the string has a meta-character and occurs at an offset > 0. Distinct = distinct (string, host, text).", ALPHA.len(), HOSTS.len());
     o.assumptions = vec!["oracle: str::find".into()];
     o.required_classes = vec!["string:has-meta-character".into(), "string:plain".into(), "pair:longer-first".into(), "pair:shorter-first".into()];
     let all_hosts: Vec<usize> = (0..HOSTS.len()).collect();
@@ -252,7 +268,7 @@ pub fn run(ctx: &RunCtx) -> Outcome {
                 return st;
             }
             // the longest strings go through three hosts only (bare, VM-forcing, look-behind)
-            let hosts: &[usize] = if s.chars().count() >= 3 && ctx.quick() || s.chars().count() >= 4 { &[0, 1, 6, 9, 11, 13] } else { &all_hosts };
+            let hosts: &[usize] = if s.chars().count() >= 3 && ctx.quick() || s.chars().count() >= 4 { &[0, 1, 6, 9, 11, 13, 15, 16] } else { &all_hosts };
             st.evaluations += (hosts.len() * (3 + 3 * s.chars().count() + 2)) as u64;
             st.patterns += 1;
             match check_string(s, hosts) {
